@@ -341,3 +341,36 @@ for _n in range(3):
         modifies=["self.cov_detections", "self.ghost_det.*", "self.ghost_det.cov_subscriptions.cov_subscriptions", "self.ghost_obj._property_monitors"]
                  + ["self.ghost_det.cov_subscriptions.cov_subscriptions[%d].%s" % (i, f) for i in range(_n) for f in ("isScheduled", "taskTime", "lifetime", "confirmed", "obj_ref")],
         note="bounded in structure: %d existing subscriptions on the object (symbolic subscriber, process id, lifetime)" % _n)
+
+# -- the active-subscriptions list shows exactly the live subscriptions -----------------------------------------------------------------------
+
+from bacpypes.service.cov import ActiveCOVSubscriptions
+
+def DeviceOf(nsubs):
+    """the device object of an application with nsubs live subscriptions on one monitored object"""
+    def build(b, name):
+        det = Criterion(COVIncrementCriteria, nsubs, app_cls=GhostApp).build(b, name + '.det')
+        dev = GhostObject()
+        dev._app = det.obj._app
+        dev.ghost_det = det
+        return dev
+    return Fn(build)
+
+def listed_ok(result, dev, now):
+    subs = dev.ghost_det.cov_subscriptions.cov_subscriptions
+    if len(result) != len(subs):
+        return False
+    for i in range(len(subs)):
+        cov, e = subs[i], result[i]
+        if not (e.recipient.processIdentifier == cov.proc_id and e.recipient.recipient.address.macAddress == cov.client_addr.addrAddr
+                and e.monitoredPropertyReference.objectIdentifier == cov.obj_id and e.monitoredPropertyReference.propertyIdentifier == 'presentValue'
+                and e.issueConfirmedNotifications == cov.confirmed and e.timeRemaining == remaining(cov, now)):
+            return False
+    return True
+
+for _n in range(3):
+    contract("bacpypes.service.cov:ActiveCOVSubscriptions.ReadProperty", name="bacpypes.service.cov:ActiveCOVSubscriptions.ReadProperty[%d subscriptions]" % _n,
+        params={"self": Fn(lambda b, name: ActiveCOVSubscriptions()), "obj": DeviceOf(_n), "arrayIndex": Const(None)},
+        globals_={"TaskManager": ("bacpypes.service.cov", GhostTaskManager)},
+        ensures=["listed_ok(result, obj, trace('clock')[0][0])"],
+        modifies=[], note="bounded in structure: %d live subscriptions" % _n)
